@@ -158,7 +158,7 @@ pub fn run(ctx: &Ctx) -> Outcome {
 
     // 1. sequential histories
     let sut = SeqSut { bases: bases[..2].to_vec() };
-    let caps = Caps { max_depth: 3, max_states: 200_000, wall_s: ctx.tier.pick(25.0, 400.0) };
+    let caps = Caps { max_depth: ctx.tier.pick(3, 4), max_states: 200_000, wall_s: ctx.tier.pick(25.0, 400.0) };
     let rep = seqx::explore(&sut, &caps, ctx.workers);
 
     // 2. K2 histories
@@ -239,7 +239,7 @@ pub fn run(ctx: &Ctx) -> Outcome {
         if quick {
             "sequential: all op sequences of depth <= 3 over 11 ops from L2 and L3 (stable ids); K2: all ordered pairs over 13 ops on L2 and L2+k_idx x {retries 0, default}"
         } else {
-            "sequential: depth <= 3 over 11 ops from L2 and L3; K2: all ordered pairs over 13 ops on L2, L3, L2+k_idx and all triples on L2, L3 x {retries 0, default}"
+            "sequential: depth <= 4 over 11 ops from L2 and L3; K2: all ordered pairs over 13 ops on L2, L3, L2+k_idx and all triples on L2, L3 x {retries 0, default}"
         },
     );
     out.assume("row identity is tracked through the hidden uid column; a uid deleted and re-inserted is a new row");
